@@ -45,14 +45,14 @@ type UISpec struct {
 }
 
 type Plan struct {
-	Machine      string `json:"machine"` // recipient | identity | identity-as-recipient
-	Name         string `json:"name"`
-	NStanzas     int    `json:"n_stanzas"` // identity machine: stanzas handed to Unwrap
-	Msgs         []PMsg `json:"msgs"`
-	DeathAt      int    `json:"death_at"`  // -1: peer lives; k: dies before delivering message k (k == len(msgs): after all)
-	DeathCut     int    `json:"death_cut"` // >0: delivers this many bytes of message death_at, then dies
-	DeadAtStart  bool   `json:"dead_at_start,omitempty"`
-	UI           UISpec `json:"ui"`
+	Machine     string `json:"machine"` // recipient | identity | identity-as-recipient
+	Name        string `json:"name"`
+	NStanzas    int    `json:"n_stanzas"` // identity machine: stanzas handed to Unwrap
+	Msgs        []PMsg `json:"msgs"`
+	DeathAt     int    `json:"death_at"`  // -1: peer lives; k: dies before delivering message k (k == len(msgs): after all)
+	DeathCut    int    `json:"death_cut"` // >0: delivers this many bytes of message death_at, then dies
+	DeadAtStart bool   `json:"dead_at_start,omitempty"`
+	UI          UISpec `json:"ui"`
 }
 
 type Engine struct{}
@@ -69,8 +69,8 @@ func (Engine) Runs(tier string) int {
 
 func (Engine) Meta() core.Meta {
 	return core.Meta{
-		Level: "exploration",
-		Rule: "a case = one conversation: state machine (recipient / identity / identity used as recipient / identity as the first of two identities inside age.Decrypt, where a missing file key must hand over to the next identity and a protocol failure must not), UI callback subset (each nil / failing / answering, WaitTimer set or not), and a peer script of up to 8 messages over the protocol alphabet (recipient-stanza with index 0/1/-1/non-numeric/missing type, labels first/repeated/empty, file-key valid/duplicate/extra args/bad index, error, msg, request-secret/public, confirm with 0..3 args and bad base64, unknown command, done, malformed framing: no arrow, long body line, missing short line, non-canonical base64, CR, padding), each message delivered whole/per line/per byte, optional stalls of 0/4.9/5.1/60/3600 s before a message (fake clock), peer death before intake / between messages / mid-line / mid-body. Oracle: executable model of the client written from the statement (expected reply per message, final result class and values, well-formed phase-1 transcript), bounded liveness after the peer's last action. Non-trivial = at least one message besides done; distinct = distinct (machine, UI, script skeleton, death point).",
+		Level:       "exploration",
+		Rule:        "a case = one conversation: state machine (recipient / identity / identity used as recipient / identity as the first of two identities inside age.Decrypt, where a missing file key must hand over to the next identity and a protocol failure must not), UI callback subset (each nil / failing / answering, WaitTimer set or not), and a peer script of up to 8 messages over the protocol alphabet (recipient-stanza with index 0/1/-1/non-numeric/missing type, labels first/repeated/empty, file-key valid/duplicate/extra args/bad index, error, msg, request-secret/public, confirm with 0..3 args and bad base64, unknown command, done, malformed framing: no arrow, long body line, missing short line, non-canonical base64, CR, padding), each message delivered whole/per line/per byte, optional stalls of 0/4.9/5.1/60/3600 s before a message (fake clock), peer death before intake / between messages / mid-line / mid-body. Oracle: executable model of the client written from the statement (expected reply per message, final result class and values, well-formed phase-1 transcript), bounded liveness after the peer's last action. Non-trivial = at least one message besides done; distinct = distinct (machine, UI, script skeleton, death point).",
 		Assumptions: []string{"where the statement prescribes nothing (malformed confirm, file-key with an empty body) the model only requires termination with an error or a prescribed result", "no timing oracle: WaitTimer firings are probes only", "a peer that stays alive and silent forever is not generated (waiting for it is what the protocol prescribes)", "exec/PATH lookup is replaced by the hook and not observed (C17)"},
 		Real:        []string{"filippo.io/age/plugin client (Recipient.WrapWithLabels, Identity.Unwrap, ClientUI.handle/readStanza)", "internal/format StanzaReader and Stanza.Marshal", "time.AfterFunc on the bubble's fake clock"},
 		Stub:        []string{"plugin process and its pipes (plugin.VerifTransport hook, build tag verif)", "ClientUI callbacks", "wall clock (testing/synctest bubble)"},
@@ -177,16 +177,16 @@ func genMsg(r *core.RNG, machine string) PMsg {
 	case c < 19:
 		m.Kind = "raw"
 		m.Raw = []string{
-			"recipient-stanza 0 X25519 abc\n\n",                         // no arrow
-			"-> msg\n" + strings.Repeat("A", 68) + "\n\n",                // long body line
-			"-> msg\n" + strings.Repeat("A", 64) + "\n-> done\n\n",       // missing short line
-			"-> msg\nQR\n",                                               // non-canonical base64
-			"-> done\r\n\n",                                              // CR
-			"-> msg\nQQ==\n",                                             // padding
-			"->  done\n\n",                                               // empty argument
-			"-> msg \n\n",                                                // trailing space
-			"-> m\xc3\xa9sg\n\n",                                         // non-ASCII
-			"\n",                                                         // empty line
+			"recipient-stanza 0 X25519 abc\n\n",                    // no arrow
+			"-> msg\n" + strings.Repeat("A", 68) + "\n\n",          // long body line
+			"-> msg\n" + strings.Repeat("A", 64) + "\n-> done\n\n", // missing short line
+			"-> msg\nQR\n",       // non-canonical base64
+			"-> done\r\n\n",      // CR
+			"-> msg\nQQ==\n",     // padding
+			"->  done\n\n",       // empty argument
+			"-> msg \n\n",        // trailing space
+			"-> m\xc3\xa9sg\n\n", // non-ASCII
+			"\n",                 // empty line
 		}[r.Intn(10)]
 	default:
 		m.Kind = "done"
@@ -406,15 +406,15 @@ func (t *transport) Read(p []byte) (int, error) {
 // ---------- the model ----------
 
 type expect struct {
-	replies  []string // marshalled reply stanzas expected, in order
-	final    string   // "stanzas" | "filekey" | "incorrect" | "error"
-	errText  string   // for error messages: must be contained in the final error
-	stanzas  []*ref.Stanza
-	labels   []string
-	hasLabel bool
-	fileKey  []byte
-	lenient  bool // statement prescribes nothing from here: only termination + error-or-valid result
-	errAcked bool
+	replies   []string // marshalled reply stanzas expected, in order
+	final     string   // "stanzas" | "filekey" | "incorrect" | "error"
+	errText   string   // for error messages: must be contained in the final error
+	stanzas   []*ref.Stanza
+	labels    []string
+	hasLabel  bool
+	fileKey   []byte
+	lenient   bool // statement prescribes nothing from here: only termination + error-or-valid result
+	errAcked  bool
 	processed int // number of messages the client is expected to consume
 }
 
